@@ -426,4 +426,9 @@ def analyse(obs: Obs, prog):
     un = [x for x in subterms(r.ret) if is_mcall(x, "handle_trace")]
     okd = len(un) == 1 and is_call(un[0][2][0], "tree_const_unwrap") and mentions(un[0][2][0], mk_proj(("call", G("jax.tree_util.tree_unflatten"), (), ()), 0)[1][1]) if un else False
     okd = len(un) == 1 and is_call(un[0][2][0], "tree_const_unwrap") and is_t(un[0][2][1], "proj") and un[0][2][1][2] == 1 and is_t(un[0][2][2], "proj") and un[0][2][2][2] == 2 and is_t(un[0][2][0][2][0], "proj") and un[0][2][0][2][0][2] == 0
+    # ... and only for the trace primitive (the polarity of the test matters: `!=` would hand every OTHER primitive to handle_trace)
+    is_tp = lambda c: is_t(c, "cmp") and c[1] == "==" and P("primitive") in (c[2], c[3]) and any(is_t(x, "global") and x[1].endswith("trace_p") for x in (c[2], c[3]))
+    okd = okd and all(any(pol and is_tp(c) for c, pol in conds) for conds, ret in r.returns if mentions_any(ret, lambda x: is_mcall(x, "handle_trace")))
+    rh = Evaluator(prog).eval_fn(SH.methods["handles"], SH.module, SH) if "handles" in SH.methods else None
+    okd = okd and (rh is None or is_tp(rh.ret))
     obs.add({"C22"}, "TRACE-BIND", "StaticHandler.dispatch", okd, derived=[show(u)[:200] for u in un], expected="handle_trace(unwrap(addr), gen_fn, args) unflattened in the order trace() bound them", where=W(SH, "dispatch"))
